@@ -447,4 +447,83 @@ def defectiveHashIterSites : List Str := [
 ]
 
 
+/-! ### the order `sorted()` puts graph nodes and entities in (`BaseNode.__lt__`, `FortranBase.__lt__`)
+
+  A node set keeps one node per `ident` (`__eq__` / `__hash__`).  `sorted(set)` is stable, so it hands the
+  iteration order of the set on wherever the compared key does not distinguish two members. -/
+
+/-- the key `__lt__` compares: the identifier, or (any other key is represented by) the lower-cased label -/
+def nodeKeyOf (byIdent : Bool) (n : Node) : Str := if byIdent then n.ident else lower n.label
+
+/-- `sorted(nodes)` -/
+def emitNodesBy (byIdent : Bool) (nodes : List Node) : List Node := sortOn (nodeKeyOf byIdent) nodes
+
+/-- ... with the `__lt__` of the working tree (switches generated from the AST of the two classes) -/
+def emitNodesTree (nodes : List Node) : List Node := emitNodesBy Gen.C12.nodeLtByIdent nodes
+def sortEntitiesTree (ents : List Node) : List Node := emitNodesBy Gen.C12.entityLtByIdent ents
+
+/-- sort sites with a `key=` (or a template sort filter) that were looked at one by one: (site, key).  Their
+    input is a list whose order is itself determined (never a set, never a directory listing), so the ties the
+    key leaves are broken by that order. -/
+def reviewedKeyedSorts : List (Str × Str) := [
+  -- table view of an over-long graph: `hop_edges` was filled by the loops over `sorted(nodes)`
+  (cs! "graphs.py:FortranGraph._make_graph_as_table: self.hop_edges.sort()", cs! "lambda x: x[key].attribs['label'].lower()"),
+  -- `sort:` option: the lists of an entity are in source order when they are sorted
+  (cs! "sourceform.py:FortranBase.sort_components: entity.sort()", cs! "sort_key"),
+  -- the list pages: the project lists are in parse order (`projectList`), Jinja's sort is stable
+  (cs! "templates/absint_list.html: project.absinterfaces|sort", cs! "attribute='name'"),
+  (cs! "templates/block_list.html: project.blockdata|sort", cs! "attribute='name'"),
+  (cs! "templates/file_list.html: project.allfiles|sort", cs! "attribute='name'"),
+  (cs! "templates/index.html: project.allfiles|sort", cs! "attribute='name'"),
+  (cs! "templates/index.html: project.modules|sort", cs! "attribute='name'"),
+  (cs! "templates/index.html: project.procedures|sort", cs! "attribute='name'"),
+  (cs! "templates/index.html: project.types|sort", cs! "attribute='name'"),
+  (cs! "templates/mod_list.html: project.modules|sort", cs! "attribute='name'"),
+  (cs! "templates/namelist_list.html: project.namelists|sort", cs! "attribute='name'"),
+  (cs! "templates/proc_list.html: project.procedures|sort", cs! "attribute='name'"),
+  (cs! "templates/prog_list.html: project.programs|sort", cs! "attribute='name'"),
+  (cs! "templates/types_list.html: project.types|sort", cs! "attribute='name'")
+]
+
+/-! ### the entries of a page directory (`get_page_tree`)
+
+  `enum` is what `os.listdir` returns: the names in the directory (pairwise different) in the order the file
+  system happens to enumerate them - an adversarial input. -/
+
+/-- `os.path.splitext(name)[0]`: cut at the last dot unless only dots precede it -/
+def lastDotSplit (name : Str) : Str :=
+  -- index of the last '.', usable only if some non-dot character precedes it
+  let rev := name.reverse
+  let ext := rev.takeWhile (· != '.')
+  if ext.length == rev.length then name
+  else
+    let stem := (rev.drop (ext.length + 1)).reverse
+    if stem.any (· != '.') then stem else name
+
+/-- the key of a keyed variant: lower-cased name without its extension -/
+def stemLower (name : Str) : Str := lower (lastDotSplit name)
+
+def pageKey (natural : Bool) (name : Str) : Str := if natural then name else stemLower name
+
+/-- `list(OrderedDict.fromkeys(l))`: first occurrences, in order -/
+def dedupAux : List Str → List Str → List Str
+  | _, [] => []
+  | seen, x :: xs => if seen.contains x then dedupAux seen xs else x :: dedupAux (x :: seen) xs
+
+def indexMd : Str := cs! "index.md"
+
+/-- `name[0] == "."` / `name[-1] == "~"` entries are skipped -/
+def pageVisible (name : Str) : Bool := !(name.head? == some '.') && !(name.getLast? == some '~')
+
+/-- the names `get_page_tree` walks for one directory, in order: the sorted listing without `index.md`, the
+    user's `ordered_subpage` list merged in front of it -/
+def pageFileList (natural : Bool) (ordered enum : List Str) : List Str :=
+  let fl := (sortOn (pageKey natural) enum).erase indexMd
+  let merged := if ordered.isEmpty then fl else dedupAux [] (ordered ++ fl)
+  merged.filter pageVisible
+
+/-- ... in the working tree (switch generated from the AST of `get_page_tree`) -/
+def pageFileListTree (ordered enum : List Str) : List Str := pageFileList Gen.C12.pageListNatural ordered enum
+
+
 end Ford.Order
